@@ -953,6 +953,17 @@ type hwConnRun struct {
 	cssl    bool          // ... option connect-ssl
 	shared  int           // shared-client.client-number (0: per-instance clients)
 	serial  bool          // the instances take turns: at most one exchange in flight
+	http2   bool          // http2 gun against a target that offers h2 (always TLS)
+}
+
+func (cr hwConnRun) gunName() string {
+	if cr.connect {
+		return "connect"
+	}
+	if cr.http2 {
+		return "http2"
+	}
+	return "http"
 }
 
 // hwSink receives the log lines of a connection run (the output file, or a buffer when runs execute in parallel).
@@ -1050,6 +1061,13 @@ func hwConnMore(w hwSink, run int) int {
 	}
 	run++
 	hwConnOne(w, run, hwConnRun{ssl: false, ka: true, n: 3, r: 3, shared: 2, serial: true, connect: true})
+	// http2 gun: an instance multiplexes its (sequential) requests over its one h2 connection; shared clients too
+	for n := 1; n <= 3; n++ {
+		run++
+		hwConnOne(w, run, hwConnRun{ssl: true, ka: true, n: n, r: 3 + (seed+run)%3, http2: true})
+	}
+	run++
+	hwConnOne(w, run, hwConnRun{ssl: true, ka: true, n: 3, r: 3, shared: 2, serial: true, http2: true})
 	return run
 }
 
@@ -1062,6 +1080,10 @@ func hwConnOne(w hwSink, run int, cr hwConnRun) {
 			{
 				rec := &targets.Recorder{}
 				tgt := targets.NewHTTP("target", ssl, rec)
+				if cr.http2 {
+					tgt.Close()
+					tgt = targets.NewHTTP2("target", rec)
+				}
 				// one uri ammo file with n*r distinct URIs
 				var b strings.Builder
 				for k := 0; k < n*r; k++ {
@@ -1081,6 +1103,9 @@ func hwConnOne(w hwSink, run int, cr hwConnRun) {
 				if cr.connect {
 					px = targets.NewProxy("proxy", cr.cssl, tgt.Addr(), 200, rec)
 					gm["type"], gm["target"], gm["connect-ssl"] = "connect", px.Addr(), cr.cssl
+				}
+				if cr.http2 {
+					gm["type"] = "http2"
 				}
 				if cr.shared > 0 {
 					gm["shared-client"] = map[string]interface{}{"enabled": true, "client-number": cr.shared}
@@ -1150,7 +1175,7 @@ func hwConnOne(w hwSink, run int, cr hwConnRun) {
 				tgt.Close()
 				_ = fs.Remove(path)
 				w.Emit(hwConnEv{Ev: "Run", Run: run, N: n, R: r, KeepAlive: ka, SSL: ssl, Insts: insts, Opts: cr.optNote, GapMs: int(cr.gap / time.Millisecond), IdleMs: cr.idleMs,
-					Gun: map[bool]string{false: "http", true: "connect"}[cr.connect], ConnectSSL: cr.cssl, Shared: cr.shared, Serial: cr.serial})
+					Gun: cr.gunName(), ConnectSSL: cr.cssl, Shared: cr.shared, Serial: cr.serial})
 				sort.SliceStable(shots, func(a, b int) bool { return shots[a].Inst < shots[b].Inst })
 				idx := map[string]int{}
 				for k, name := range insts {
@@ -1192,7 +1217,7 @@ func hwConnOne(w hwSink, run int, cr hwConnRun) {
 					}
 				}
 				w.Emit(hwConnEv{Ev: "End", Run: run, N: n, R: r, KeepAlive: ka, SSL: ssl, Tolerant: cr.opts != nil,
-					Gun: map[bool]string{false: "http", true: "connect"}[cr.connect], ConnectSSL: cr.cssl})
+					Gun: cr.gunName(), ConnectSSL: cr.cssl})
 			}
 		}
 	}
